@@ -32,7 +32,8 @@ def run_case(ctx, rep, spec, fields, limit, serial, model, start=None, path=None
     names = dedup_names(spec["fields"])
     nlev = len(spec["levels"])
     L = nlev - 1 if limit is None else limit
-    case = {"spec": spec, "fields": fields, "limit": limit, "serial": serial, "cli": cli, "reuse": reuse}
+    asked = list(fields) if isinstance(fields, list) else fields          # what the caller asked for (the tool gets the caller's own object)
+    case = {"spec": spec, "fields": asked, "limit": limit, "serial": serial, "cli": cli, "reuse": reuse}
     if reuse: rep.count("one-object-flattened-twice-first-result-converted-in-place")
     if previous is not None:
         case["previous"] = previous; rep.count("path-rewritten-with-other-data-then-flattened-again")
@@ -62,6 +63,9 @@ def run_case(ctx, rep, spec, fields, limit, serial, model, start=None, path=None
     except Exception as e:
         rep.fail(f"flattening raised {type(e).__name__}: {e}", case)
         return
+    if isinstance(fields, list) and fields != asked:
+        rep.fail(f"the caller's field list {asked} was changed by the call (now {fields})", case)
+        fields[:] = asked
     want_names = list(names) if (fields == "all" or (isinstance(fields, list) and "all" in fields)) else \
         [f for f in ([fields] if isinstance(fields, str) else fields) if f != "grid_level"]
     do_grid = fields == "all" or "grid_level" in (fields if isinstance(fields, list) else [fields]) or "all" in fields
